@@ -24,6 +24,7 @@ import (
 	"strconv"
 	"strings"
 	"sync"
+	"time"
 
 	"github.com/blinklabs-io/gouroboros/cbor"
 	"github.com/blinklabs-io/gouroboros/kes"
@@ -33,7 +34,7 @@ import (
 )
 
 func init() {
-	register(&Prop{ID: "C46", Gen: genC46, Run: runC46})
+	register(&Prop{ID: "C46", Gen: genC46, Run: runC46, Timeout: 3 * time.Minute})
 }
 
 const c46Pools = 4
@@ -155,7 +156,39 @@ func c46Spk(auth *pcommon.MessageAuthenticator) string {
 	return strconv.FormatUint(v.Uint(), 10)
 }
 
+// ttl <durationNs> <nowUnix> <expiresAt> <disabled>: TTLValidator.ValidateMessageTTLAt
+func g8RunTTL(f []string) string {
+	if len(f) != 5 {
+		return "bad-op"
+	}
+	d, e1 := strconv.ParseInt(f[1], 10, 64)
+	now, e2 := strconv.ParseInt(f[2], 10, 64)
+	exp, e3 := strconv.ParseUint(f[3], 10, 32)
+	if e1 != nil || e2 != nil || e3 != nil || (f[4] != "0" && f[4] != "1") {
+		return "bad-op"
+	}
+	logger := slog.New(slog.NewTextHandler(io.Discard, nil))
+	v := pcommon.NewTTLValidator(time.Duration(d), logger)
+	if f[4] == "1" {
+		v = pcommon.NewNoOpTTLValidator(logger)
+	}
+	msg := &pcommon.DmqMessage{Payload: pcommon.DmqMessagePayload{ExpiresAt: uint32(exp)}}
+	err := v.ValidateMessageTTLAt(msg, time.Unix(now, 0))
+	switch {
+	case err == nil:
+		return "ttl=ok"
+	case strings.Contains(err.Error(), "has expired"):
+		return "ttl=expired"
+	case strings.Contains(err.Error(), "too far in future"):
+		return "ttl=toofar"
+	}
+	return "ttl=other"
+}
+
 func runC46(op string) string {
+	if f := strings.Fields(op); len(f) > 0 && f[0] == "ttl" {
+		return g8RunTTL(f)
+	}
 	parts := strings.Split(op, ";")
 	head := strings.Fields(parts[0])
 	if len(head) < 3 || head[0] != "dmq" {
@@ -384,6 +417,31 @@ func genC46(r *Rand, n int, tier string, emit func(string)) {
 	cmm := []string{"other", "issue", "period", "kes", "junk", "short", "cklen"}
 	kmm := []string{"otherkey", "otherpayload", "junk", "short", "vklen"}
 	for i := 0; i < n; i++ {
+		if r.Chance(1, 10) {
+			// TTL validator: now / expiry / max TTL around each other and around the uint32 edge
+			ttlS := Pick(r, int64(0), 1800, 1, 60, -5, 1<<31, int64(r.Intn(100000)))
+			d := ttlS * 1000000000
+			if ttlS < 1<<20 && ttlS >= 0 && r.Chance(1, 4) {
+				d += int64(r.Intn(1000000000))
+			}
+			now := Pick(r, int64(0), -1, -1000, 1700000000, 4294967295, 4294967296, 4294967294, int64(r.U64()>>31), int64(r.Intn(2000000)))
+			eff := ttlS
+			if eff <= 0 {
+				eff = 1800
+			}
+			exp := now + Pick(r, int64(0), 1, -1, eff, eff+1, eff-1, int64(r.Intn(4000)))
+			if r.Chance(1, 8) {
+				exp = Pick(r, int64(0), 4294967295, 4294967294)
+			}
+			if exp < 0 {
+				exp = 0
+			}
+			if exp > 4294967295 {
+				exp = 4294967295
+			}
+			emit(fmt.Sprintf("ttl %d %d %d %d", d, now, exp, Pick(r, 0, 0, 0, 0, 0, 1)))
+			continue
+		}
 		var sb strings.Builder
 		fmt.Fprintf(&sb, "dmq %s ", universes[r.Intn(len(universes))])
 		// a third of the histories are counter histories: real verifier, pools registered, mostly
